@@ -11,7 +11,7 @@ from .common import hx, unhx
 from . import reqgen
 
 ID = 'C05'
-GEN_DEPS = ['GenReqHeaders', 'GenResHeaders', 'GenStatus', 'GenConsts']
+GEN_DEPS = ['GenReqHeaders', 'GenResHeaders', 'GenStatus', 'GenConsts', 'GenSession']
 RULE = ('histories of 1-8 requests on one connection, each delivered as one segment (mixed methods, routes with 0-2 params, header sets incl. a context-setting header, bodies of any bytes incl. NUL and '
         'request look-alikes, sizes 1-3000 around the 1 KiB buffer, refused requests in between, Connection: close anywhere); non-trivial = at least 2 requests of which an earlier one has a header, body, '
         'param or context entry that a later one lacks; distinct by canonical JSON')
@@ -39,7 +39,11 @@ def corpus():
     return [{'case': {'script': [hx(r1), hx(r2)], 'eof': True, 'fresh': True, 'real': True}},
             {'case': {'script': [hx(r1), hx(r2), hx(r3), hx(r2)], 'eof': True, 'fresh': True, 'real': True}},
             {'case': {'script': [hx(big), hx(r2), hx(big), hx(r1)], 'eof': True, 'fresh': True, 'real': True}},
-            {'case': {'script': [hx(b'GET x HTTP/1.1\r\n\r\n'), hx(r1), hx(r2)], 'eof': True, 'fresh': True, 'real': True}}]
+            {'case': {'script': [hx(b'GET x HTTP/1.1\r\n\r\n'), hx(r1), hx(r2)], 'eof': True, 'fresh': True, 'real': True}},
+            # was: the value a fang wrote into the public field `ip` for one request was still there for the next
+            {'case': {'script': [hx(b'GET /a HTTP/1.1\r\nX-Set-Ip: 203.0.113.9\r\n\r\n'), hx(r2), hx(b'GET /b HTTP/1.1\r\nX-Set-Ip: 2001:db8::7\r\n\r\n'), hx(r2)], 'eof': True, 'fresh': True, 'real': True}},
+            # was: the Keep-Alive timeout bounded the life of the session, handler and response included (real time, OHKAMI_KEEPALIVE_TIMEOUT=1)
+            {'case': {'timed': True}}]
 
 
 def generate(rng, tier):
@@ -78,8 +82,25 @@ def against_fresh(res, fresh, who, script=None):
     return v
 
 
+def judge_timed(out):
+    """the session loop in real time (OHKAMI_KEEPALIVE_TIMEOUT=1): a request that comes within the Keep-Alive timeout of the previous response is answered as it
+    would be alone, however old the session is and however long its handler takes"""
+    t = out.get('timed')
+    if not t: return [('violation', f'the timed scenarios did not run: {str(out)[:160]}')]
+    v = []
+    def answers(name): return unhx(t[name]['all']).count(b'HTTP/1.1 200 OK\r\n'), unhx(t[name]['all'])
+    n, raw = answers('keepalive')
+    if n != 3 or raw.count(b'\r\n\r\nroot') != 3: v.append(('violation', f'three requests 0.6 s apart on one connection (Keep-Alive timeout 1 s): {n} answered; alone each is answered 200 "root"'))
+    n, raw = answers('slow')
+    if n != 1 or not raw.endswith(b'slow'): v.append(('violation', f'a request whose handler takes 1.4 s (Keep-Alive timeout 1 s) got {raw[-60:]!r}; alone on a fresh connection it IS this case: the answer is 200 "slow"'))
+    n, raw = answers('idle')
+    if n != 1: v.append(('violation', f'a single request got {n} answers'))
+    return v
+
+
 def judge(case, out, m):
     if 'panic' in out: return [('violation', 'panic: ' + out['panic'][:160])]
+    if case.get('timed'): return judge_timed(out)
     res = out['responses']
     fresh = out.get('fresh', [])
     v = against_fresh(res, fresh, 'session loop (mirror over the hooks)', case.get('script'))
@@ -99,13 +120,16 @@ def judge(case, out, m):
 
 
 def nontrivial(case):
+    if case.get('timed'): return True
     return len(case['script']) >= 2 and any(b'X-' in unhx(s) or b'Content-Length' in unhx(s) for s in case['script'][:-1])
 
 
 def features(case, out):
+    if case.get('timed'): return ['timed']
     return ['n_%d' % len(case['script']), 'end_' + str(out.get('end'))] + ['resp_%s' % unhx(r)[9:12].decode() for r in out.get('responses', [])]
 
 
 def shrink(case, still_fails):
     from .common import shrink_list
+    if case.get('timed'): return case
     return shrink_list(case, ['script'], still_fails)
